@@ -55,6 +55,7 @@ func srvRun(args []string) error {
 	rlen := fs.Int("len", 40, "length of random sequences")
 	seed := fs.Int64("seed", 1, "seed")
 	profile := fs.String("profile", "mixed", "random profile: mixed | elec | fsm | ops | get | flush")
+	getStall := fs.Duration("getstall", 0, "one Get of this run is read by a consumer that stalls for this long after the first response")
 	fs.Parse(args)
 	w, err := os.Create(*out)
 	if err != nil {
@@ -64,7 +65,10 @@ func srvRun(args []string) error {
 	bw := bufio.NewWriterSize(w, 1<<20)
 	defer bw.Flush()
 	sink := &ribdrv.WriterSink{W: bw}
-	rn := &srvdrv.Runner{Sink: sink}
+	rn := &srvdrv.Runner{Sink: sink, GetStall: *getStall}
+	if *getStall > 0 {
+		rn.StallsLeft = 1
+	}
 	run := func(ins []srvdrv.Input) error {
 		for i, x := range ins {
 			if err := rn.Step(x); err != nil {
@@ -89,6 +93,6 @@ func srvRun(args []string) error {
 		walks++
 	}
 	rn.Close()
-	fmt.Printf("{\"walks\":%d,\"steps\":%d,\"events\":%d,\"panics\":%d,\"hangs\":%d}\n", walks, rn.Steps, sink.N, rn.Panics, rn.Hangs)
+	fmt.Printf("{\"walks\":%d,\"steps\":%d,\"events\":%d,\"panics\":%d,\"hangs\":%d,\"slow_gets\":%d}\n", walks, rn.Steps, sink.N, rn.Panics, rn.Hangs, rn.Stalled)
 	return nil
 }
